@@ -1711,6 +1711,129 @@ fn mode_compose(r: &mut Runner) {
         let _ = await_no_library_thread();
         set_current(None);
     }
+    // the crate's OWN sinks behind the queue (a queue over NopMetricSink is the documented way to measure the client's
+    // overhead; spy sinks are what tests use) and the rendezvous capacity 0, with nothing gated: at rest `submitted` is
+    // the number of emits that returned Ok, `drained` has caught up with it and nothing is queued
+    for variant in 0..8u64 {
+        if r.prop != "C15" {
+            break;
+        }
+        let cap = [None, Some(0usize), Some(1), Some(64), None, Some(0), Some(3), None][variant as usize];
+        let kind = variant % 4;
+        let mut keep_rx: Option<Box<dyn std::any::Any>> = None;
+        let mk = |b: cadence::QueuingMetricSinkBuilder, keep: &mut Option<Box<dyn std::any::Any>>| -> QueuingMetricSink {
+            match kind {
+                0 => b.build(cadence::NopMetricSink),
+                1 => {
+                    let (rx, s) = cadence::SpyMetricSink::new();
+                    *keep = Some(Box::new(rx));
+                    b.build(s)
+                }
+                2 => {
+                    let (rx, s) = cadence::BufferedSpyMetricSink::new();
+                    *keep = Some(Box::new(rx));
+                    b.build(s)
+                }
+                _ => b.build(AlwaysFails),
+            }
+        };
+        let mut b = QueuingMetricSink::builder();
+        if let Some(c) = cap {
+            b = b.with_capacity(c);
+        }
+        let q = mk(b, &mut keep_rx);
+        let n = 300usize;
+        let mut oks = 0u64;
+        for k in 0..n {
+            if q.emit(&format!("stock{}.n{}:1|c", variant, k)).is_ok() {
+                oks += 1;
+            }
+            if cap == Some(0) && k % 8 == 0 {
+                std::thread::yield_now();
+            }
+        }
+        // come to rest: the counters stop moving (bounded wait; the verdict is on the values, not on the time)
+        let t0 = std::time::Instant::now();
+        let mut last = (q.submitted(), q.drained(), q.queued());
+        let mut still = 0;
+        while still < 20 && t0.elapsed().as_secs() < 20 {
+            std::thread::sleep(std::time::Duration::from_millis(2));
+            let cur = (q.submitted(), q.drained(), q.queued());
+            if cur == last && cur.1 >= cur.0 {
+                still += 1;
+            } else if cur == last {
+                still += 1;
+                if still >= 20 && t0.elapsed().as_millis() < 600 {
+                    still = 10; // not caught up yet: give the queue's thread more time before judging
+                }
+            } else {
+                still = 0;
+                last = cur;
+            }
+        }
+        let (sub, dr, qd) = last;
+        let label = format!("compose stock sink #{} ({}) capacity {:?}", kind, ["NopMetricSink", "SpyMetricSink", "BufferedSpyMetricSink", "a sink that fails every metric"][kind as usize], cap);
+        {
+            let mut rep = r.rep();
+            rep.eval();
+            rep.obs("counter_checks_on_queues_over_the_crates_own_sinks", 1);
+            rep.distinct(&format!("compose-stock|{}|{:?}", kind, cap));
+            if sub != oks {
+                rep.violation(Violation { property: "C15".into(), rule: "R7".into(), class: "submitted-wrong".into(), detail: format!("[{}] {} emits returned Ok, submitted() = {} at rest", label, oks, sub), replay_args: r.args.to_vec_with(&[]), trace: Json::Null });
+            } else if dr != sub || qd != 0 {
+                rep.violation(Violation { property: "C15".into(), rule: "R7".into(), class: "drained-wrong".into(), detail: format!("[{}] at rest (counters unchanged for 20 samples, {} ms after the last emit): submitted() = {}, drained() = {}, queued() = {}", label, t0.elapsed().as_millis(), sub, dr, qd), replay_args: r.args.to_vec_with(&[]), trace: Json::Null });
+            }
+        }
+        drop(q);
+        drop(keep_rx);
+        let _ = await_no_library_thread();
+    }
+    // the LAST handle of a queue goes away on the thread of ANOTHER queue (it was owned by that queue's wrapped sink, or by
+    // its error handler, and that queue is finishing): stopping is stopping, whoever asks
+    for variant in 0..2u64 {
+        if r.prop != "C09" {
+            break;
+        }
+        struct Owner {
+            inner: M<Option<QueuingMetricSink>>,
+        }
+        impl cadence::MetricSink for Owner {
+            fn emit(&self, m: &str) -> std::io::Result<usize> {
+                // told to let go of the handle it owns: this runs on the thread of the queue that wraps this sink
+                if m.starts_with("let-go") {
+                    drop(self.inner.lock().unwrap_or_else(|e| e.into_inner()).take());
+                    return Ok(m.len());
+                }
+                self.inner.lock().unwrap_or_else(|e| e.into_inner()).as_ref().map(|q| q.emit(m)).unwrap_or(Ok(0))
+            }
+        }
+        let sh = Shared::new(false);
+        set_current(Some(sh.clone()));
+        let x = QueuingMetricSink::from(GatedSink { sh: sh.clone() });
+        if variant == 1 {
+            let _ = x.emit(&metric_text(&format!("owned{}", r.sid), &Out::Ok, 0));
+            let _ = await_log(&sh, |st| st.n_exit >= 1);
+        }
+        // the only handle of x moves into the sink wrapped by y; x's thread is idle
+        let y = QueuingMetricSink::from(Owner { inner: M::new(Some(x)) });
+        settle();
+        let _ = y.emit("let-go:1|c");
+        let released = await_log(&sh, |st| st.log.iter().any(|e| matches!(e, Ev::SinkDrop { .. })));
+        {
+            let mut rep = r.rep();
+            rep.eval();
+            rep.obs("last_handles_dropped_on_another_queues_thread", 1);
+            rep.distinct(&format!("compose|owned-by-queue|{}", variant));
+            match released {
+                Ok(()) => {}
+                Err(st) if st.is_verdict() => rep.violation(Violation { property: "C09".into(), rule: "R4".into(), class: "worker-or-sink-not-released".into(), detail: format!("[compose: the last handle of a queuing sink is owned by the sink another queuing sink wraps, and goes away on that queue's thread] the wrapped sink was never released: {}", st.describe()), replay_args: r.args.to_vec_with(&[]), trace: Json::Null }),
+                Err(st) => rep.inconclusive(format!("owned-by-queue: {}", st.describe())),
+            }
+        }
+        drop(y);
+        adopt_zombies();
+        set_current(None);
+    }
     // metrics that an error handler itself sends through a queuing sink are queued metrics like any other: when their
     // wrapped sink fails them, that queue's handler hears of each exactly once. Two shapes: the handler of one queue
     // forwards into a second queue (whose sink fails too), and the handler sends a follow-up into its own queue.
